@@ -1170,6 +1170,11 @@ where
 
 	// Step 5: Cancel any transactions with an expired TTL
 	for tx in txs {
+		// (a payment that was confirmed and then reorganised away is not pending any more: it
+		// stays reported as reverted until it is mined again)
+		if tx.tx_type == TxLogEntryType::TxReverted {
+			continue;
+		}
 		if let Some(e) = tx.ttl_cutoff_height {
 			if tip.0 >= e {
 				wallet_lock!(wallet_inst, w);
